@@ -4,6 +4,7 @@ package main
 import (
 	"encoding/json"
 	"fmt"
+	"github.com/markkurossi/mpc/compiler/ssa"
 	"math/big"
 	"sort"
 	"strings"
@@ -305,6 +306,79 @@ func hexArr(elBits, n, salt int) string {
 	return s
 }
 
+// sameHashNames: variable names whose ssa.Value hash codes (the repository's own HashCode) are EQUAL, so that their
+// values share a bucket of the streaming wire allocator whatever its size: the order in which colliding values are
+// allocated, looked up and recycled then matters.
+func sameHashNames() [][]string {
+	groups := map[int][]string{}
+	letters := "abcdefghijklmnopqrstuvwxyz"
+	var names []string
+	for _, a := range letters {
+		for _, b := range letters {
+			names = append(names, string(a)+string(b))
+			for _, c := range letters {
+				names = append(names, string(a)+string(b)+string(c))
+			}
+		}
+	}
+	reserved := map[string]bool{"if": true, "for": true, "var": true, "int": true, "len": true, "go": true, "map": true, "new": true, "nil": true, "cap": true}
+	for _, n := range names {
+		if reserved[n] {
+			continue
+		}
+		v := ssa.Value{Name: n, Scope: 1}
+		h := v.HashCode()
+		groups[h] = append(groups[h], n)
+	}
+	var res [][]string
+	var keys []int
+	for h, g := range groups {
+		if len(g) >= 3 {
+			keys = append(keys, h)
+		}
+	}
+	sort.Ints(keys)
+	for _, h := range keys {
+		res = append(res, groups[h][:3])
+	}
+	return res
+}
+
+func hashCollisions(ctx *runner.Ctx, quick bool, idx *int) {
+	groups := sameHashNames()
+	if len(groups) == 0 {
+		ctx.Note("no three short names with equal ssa.Value.HashCode found: same-hash family empty")
+		return
+	}
+	max := 12
+	if quick {
+		max = 3
+	}
+	if len(groups) > max {
+		groups = groups[:max]
+	}
+	run := func(src, g, e string) {
+		*idx++
+		if !ctx.Mine(*idx) || ctx.Expired() {
+			return
+		}
+		runCase(ctx, cs{Src: src, G: g, E: e, OT: "ideal", Fam: "same-hash-names"})
+	}
+	for _, g := range groups {
+		// as arguments, each recycled first
+		for _, o := range [][2]string{{g[0], g[1]}, {g[1], g[0]}, {g[0], g[2]}} {
+			run(fmt.Sprintf("package main\n\nfunc main(%s, %s uint32) uint32 {\n\tt := %s * 3\n\treturn t + %s\n}\n", o[0], o[1], o[0], o[1]), "1000", "77")
+			run(fmt.Sprintf("package main\n\nfunc main(%s, %s uint32) uint32 {\n\tt := %s * 3\n\treturn t + %s\n}\n", o[0], o[1], o[1], o[0]), "1000", "77")
+		}
+		// as three locals, used (and therefore recycled) in every order
+		for _, p := range permutations([]string{g[0], g[1], g[2]}) {
+			src := fmt.Sprintf("package main\n\nfunc main(a, b uint16) uint16 {\n\t%s := a + b\n\t%s := a * b\n\t%s := a ^ b\n\tu := %s * 3\n\tv := u + %s\n\tw := v * 5\n\treturn w + %s\n}\n", g[0], g[1], g[2], p[0], p[1], p[2])
+			run(src, "1000", "77")
+			run(src, "65535", "3")
+		}
+	}
+}
+
 func sameShape(ctx *runner.Ctx, quick bool, idx *int) {
 	run := func(fam, src, g, e string) {
 		*idx++
@@ -477,6 +551,7 @@ func work(ctx *runner.Ctx) {
 	// of an indexed array, result width or offsets of a slice/cast, constant operand value): per-instruction
 	// circuits are cached during streaming and a cache that merges two of them computes the wrong one
 	sameShape(ctx, quick, &idx)
+	hashCollisions(ctx, quick, &idx)
 	mpclgen.Statements(quick, genEmit)
 	mpclgen.Casts(quick, genEmit)
 	for fi, f := range fixedPrograms {
